@@ -302,6 +302,15 @@ def rule_data(ctx, p: Project, K: KEval):
 POS_TEST = "np.any(P) and np.min(s_chol[P]) <= tolerance"
 
 
+def _call_args(c: ast.Call, names):
+    """the arguments of a call in the order of `names`, whether they were written positionally or by keyword (calls are keywordised where the callee resolves)"""
+    if len(c.args) == len(names) and not c.keywords:
+        return list(c.args)
+    kw = {k.arg: k.value for k in c.keywords}
+    vals = list(c.args) + [kw.get(n) for n in names[len(c.args):]]
+    return vals if len(vals) == len(names) and all(v is not None for v in vals) and len(kw) == len(names) - len(c.args) else None
+
+
 class St:
     """abstract state of the solver loop (all components finite)"""
     __slots__ = ("w", "pos", "zero", "dval", "U", "sync", "lc0")
@@ -484,8 +493,8 @@ class Machine:
         if tt == "U":
             if vt in ("slg.cholesky(ZTZ[P_inorder][:,P_inorder])", "slg.cholesky(ZTZ[np.ix_(P_inorder,P_inorder)])", "linalg.cholesky(ZTZ[P_inorder][:,P_inorder])"):
                 return st.copy(U="fresh")
-            if isinstance(v, ast.Call) and norm_text(v.func) == "cholinsertlast" and len(v.args) == 2 and norm_text(v.args[0]) == "U":
-                a = norm_text(v.args[1]).replace(" ", "")
+            if isinstance(v, ast.Call) and norm_text(v.func) == "cholinsertlast" and _call_args(v, ("U", "x")) is not None and norm_text(_call_args(v, ("U", "x"))[0]) == "U":
+                a = norm_text(_call_args(v, ("U", "x"))[1]).replace(" ", "")
                 if st.U.startswith("pending:"):
                     var = st.U.split(":", 1)[1]
                     if a in (f"ZTZ[{var}][P_inorder]", f"ZTZ[{var},P_inorder]", f"ZTZ[P_inorder,{var}]", f"ZTZ[P_inorder][:,{var}]"):
@@ -586,7 +595,7 @@ def rule_state(ctx, p: Project):
     ok = d is not None and expr_poly(d.value) == P_("d + alpha * (s_chol - d)")
     ctx.ob(rule, "fix: d moves toward s by alpha", ok, where=g, node=d or g.node, construct=norm_text(d)[:80] if d else "missing", message="d must move from d toward s_chol by alpha")
     ok = idd is not None and norm_text(idd.value).replace(" ", "") == "np.where(d[P_inorder]<=tolerance)[0]"
-    ok = ok and U is not None and norm_text(U.value).replace(" ", "") == "choldeleteindexes(U,id_delete)" and pin is not None and norm_text(pin.value).replace(" ", "") == "np.delete(P_inorder,id_delete)"
+    ok = ok and U is not None and isinstance(U.value, ast.Call) and norm_text(U.value.func) == "choldeleteindexes" and [norm_text(x) for x in (_call_args(U.value, ("U", "indexes")) or [])] == ["U", "id_delete"] and pin is not None and norm_text(pin.value).replace(" ", "") == "np.delete(P_inorder,id_delete)"
     ok = ok and Pst is not None and norm_text(Pst.value) == "False"
     if ok:
         ok = idd.lineno < U.lineno and idd.lineno < pin.lineno and d.lineno < idd.lineno and d.lineno < Pst.lineno
@@ -692,10 +701,10 @@ def rule_chol(ctx, p: Project, K: KEval):
         ok = len(Ls) == 1 and norm_text(Ls[0].value).replace(" ", "") in (f"np.delete(np.delete(U,{iv},axis=0),{iv},axis=1)", f"np.delete(np.delete(U,{iv},axis=1),{iv},axis=0)")
         ctx.ob(rule, "choldeleteindexes: row and column of the index removed", ok, where=f, node=Ls[0] if Ls else loops[0], construct=norm_text(Ls[0])[:90] if Ls else "missing", message="L = U without row and column `index`")
         ups = [c for c in ast.walk(loops[0]) if isinstance(c, ast.Call) and norm_text(c.func) == "_cholupdate"]
-        ok = len(ups) == 1 and len(ups[0].args) == 2
+        ok = len(ups) == 1 and _call_args(ups[0], ("U", "x")) is not None
         det = "missing"
         if ok:
-            view, vec = ups[0].args
+            view, vec = _call_args(ups[0], ("U", "x"))
             det = f"_cholupdate({norm_text(view)}, {norm_text(vec)})"
             ok = _index_form(view) == ("L", (("slice", P_(iv), None), ("slice", P_(iv), None))) and _index_form(vec) == ("U", (("at", P_(iv)), ("slice", P_(iv) + 1, None)))
             br = [(norm_text(i.test).replace(" ", ""), t) for i, t in wire.enclosing_branches(f, ups[0])]
